@@ -17,6 +17,7 @@ import ast
 import re
 from typing import Sequence,  Any, Dict, List, Optional, Set, Tuple
 
+from engine.srcmatch import U
 from engine.fold import Folder
 from engine.kvtext import KeyResolver, conversion_of, emits_in, flatten, reader_keys, writer_keys
 from engine.model import AnalysisError, Module, Program, dotted, walk_no_nested
@@ -187,7 +188,7 @@ class Typer:
                 # module-level table with an annotation
                 for st in self.mod.tree.body:
                     if isinstance(st, ast.AnnAssign) and isinstance(st.target, ast.Name) and st.target.id == e.value.id:
-                        bann = ast.unparse(st.annotation)
+                        bann = U(st.annotation)
             return self.elem_ann(bann, 1)
         if isinstance(e, ast.Name):
             src = self.loop_source(e.id)
@@ -197,10 +198,10 @@ class Typer:
             if args is not None:
                 for a in args.args + args.kwonlyargs:
                     if a.arg == e.id and a.annotation is not None:
-                        return ast.unparse(a.annotation)
+                        return U(a.annotation)
             for n in walk_no_nested(self.fn):
                 if isinstance(n, ast.AnnAssign) and isinstance(n.target, ast.Name) and n.target.id == e.id:
-                    return ast.unparse(n.annotation)
+                    return U(n.annotation)
             return None
         return None
 
@@ -383,7 +384,7 @@ def v15_editor_keys(ctx: Any, vm: Any) -> None:
         gated = False
         anc = vm.parents.get(c)
         while anc is not None and anc is not exp:
-            if isinstance(anc, ast.If) and '_is_worldspawn' in ast.unparse(anc.test):
+            if isinstance(anc, ast.If) and '_is_worldspawn' in U(anc.test):
                 in_body = any(c is x for b in anc.body for x in ast.walk(b))
                 v = ev3(anc.test)
                 if (v is False and in_body) or (v is True and not in_body):
@@ -494,7 +495,7 @@ def v9_to_v14(ctx: Any, vm: Any) -> None:
         if isinstance(e, ast.Constant) and isinstance(e.value, str):
             return e.value
         if isinstance(e, ast.JoinedStr):
-            return ''.join(str(v.value) if isinstance(v, ast.Constant) else ('\x00' if ast.unparse(v.value) == 'ind' else 'X') for v in e.values)   # type: ignore[attr-defined]
+            return ''.join(str(v.value) if isinstance(v, ast.Constant) else ('\x00' if U(v.value) == 'ind' else 'X') for v in e.values)   # type: ignore[attr-defined]
         if isinstance(e, ast.BinOp) and isinstance(e.op, ast.Add):
             a, b = tmpl(e.left), tmpl(e.right)
             if isinstance(e.left, ast.Name) and e.left.id == 'ind':
@@ -544,12 +545,12 @@ def v9_to_v14(ctx: Any, vm: Any) -> None:
     if len(wspec) != 1 or len(rslice) != 1:
         ctx.shape('C06.V10', False, vm, fe, 'replaceNN writer format / reader slice not found', func='Entity.parse', text='replace index width')
     else:
-        spec = ast.unparse(wspec[0]).strip("f'\"") if wspec[0] is not None else ''
+        spec = U(wspec[0]).strip("f'\"") if wspec[0] is not None else ''
         sl = rslice[0].value.slice
         fixed_tail = sl.lower is not None and isinstance(sl.lower, ast.UnaryOp) and sl.upper is None          # name[-2:]
         from_prefix = sl.lower is not None and not isinstance(sl.lower, ast.UnaryOp) and sl.upper is None      # name[7:] / name[len('replace'):]
         if fixed_tail:
-            ctx.check('C06.V10', False, vm, rslice[0], f'the exporter writes the index with format `{spec}` (a minimum width, 100 becomes three digits) but the parser takes `{ast.unparse(rslice[0].value)}`, a fixed number of trailing '
+            ctx.check('C06.V10', False, vm, rslice[0], f'the exporter writes the index with format `{spec}` (a minimum width, 100 becomes three digits) but the parser takes `{U(rslice[0].value)}`, a fixed number of trailing '
                       'characters: replace100 is read as index 0, replace101 collides with replace01', func='Entity.parse', text='replace index width')
         elif from_prefix:
             lo = sl.lower.value if isinstance(sl.lower, ast.Constant) else None
@@ -588,7 +589,7 @@ def v9_to_v14(ctx: Any, vm: Any) -> None:
         p = vm.parents.get(n)
         while p is not None and not isinstance(p, ast.FunctionDef):
             q = vm.parents.get(p)
-            if isinstance(q, ast.If) and p in q.body and "'hidden'" in ast.unparse(q.test):
+            if isinstance(q, ast.If) and p in q.body and "'hidden'" in U(q.test):
                 return True
             p = q
         return False
@@ -606,18 +607,18 @@ def v9_to_v14(ctx: Any, vm: Any) -> None:
                     ok = False
                 if qual == 'VMF.parse' and any(k.arg == '_worldspawn' for k in c.keywords):
                     continue
-                ctx.check('C06.V13', ok, vm, c, f'`{ast.unparse(c)[:70]}` is {"inside" if inside else "outside"} the branch that handles a hidden{{}} wrapper but passes hidden={ast.unparse(a) if a is not None else "<default False>"}: '
+                ctx.check('C06.V13', ok, vm, c, f'`{U(c)[:70]}` is {"inside" if inside else "outside"} the branch that handles a hidden{{}} wrapper but passes hidden={U(a) if a is not None else "<default False>"}: '
                           'the writer wraps exactly the hidden objects, so an object read from the wrapper must be hidden and every other one visible', func=qual, text=f'{callee} hidden flag ({"wrapper" if inside else "plain"})')
     # ---- V14 ------------------------------------------------------------------------------------------------------------------
     cam = vm.methods('Camera')
-    base_ok = 'self.map.cameras.index(self) + 1' in ast.unparse(cam['set_active']) and 'self.map.cameras.index(self) + 1' in ast.unparse(cam['is_active'])
+    base_ok = 'self.map.cameras.index(self) + 1' in U(cam['set_active']) and 'self.map.cameras.index(self) + 1' in U(cam['is_active'])
     ctx.shape('C06.V14', base_ok, vm, cam['set_active'], 'Camera.set_active / is_active use index + 1', func='Camera.set_active', text='active camera is 1-based')
     for qual, fns in vm.all_funcs().items():
         for fn in fns:
             for n in walk_no_nested(fn):
                 if isinstance(n, ast.Compare) and len(n.ops) == 1 and (dotted(n.left) or '').endswith('.active_cam') and isinstance(n.comparators[0], ast.Call) and dotted(n.comparators[0].func) == 'len' \
                         and (dotted(n.comparators[0].args[0]) or '').endswith('.cameras'):
-                    ctx.check('C06.V14', not isinstance(n.ops[0], (ast.GtE, ast.Eq)), vm, n, f'`{ast.unparse(n)}` treats the active camera number as 0-based; it is index + 1 (Camera.set_active), so the last camera being active '
+                    ctx.check('C06.V14', not isinstance(n.ops[0], (ast.GtE, ast.Eq)), vm, n, f'`{U(n)}` treats the active camera number as 0-based; it is index + 1 (Camera.set_active), so the last camera being active '
                               'satisfies this test and is reset', func=qual, text='active camera compared as 1-based')
     ctx.check('C06.V14', True, vm, cam['is_active'], 'no 0-based comparison found', func='Camera.is_active', text='active camera comparisons scanned')
 
@@ -651,7 +652,7 @@ def run(ctx: Any, prog: Program) -> None:
     ctx.check('C06.V16', len(late_bound_closures(probe)) == 1, vm, vm.tree, 'self-check of the detector on a known late-binding closure', func='<detector>', text='late-binding probe is recognised')
     for fn_, var_, lp_ in late_bound_closures(vm.tree):
         nm = getattr(fn_, 'name', '<lambda>')
-        ctx.check('C06.V16', False, vm, fn_, f'`{nm}` is created inside `for {ast.unparse(lp_.target)} in ...` and reads `{var_}` when it is called, not when it is created: every function made by the loop uses the value of the '
+        ctx.check('C06.V16', False, vm, fn_, f'`{nm}` is created inside `for {U(lp_.target)} in ...` and reads `{var_}` when it is called, not when it is created: every function made by the loop uses the value of the '
                   f'LAST iteration (all four multiblend setters would store into the same colour slot)', text=f'{nm}: loop variable {var_} bound late')
     # ---- V17: scalar displacement rows have one spelling per value ------------------------------------------------------------------
     # DispVertex.distance / .alpha are annotated float but accept ints (default `distance = 0`); the parser always yields floats.  A writer
@@ -682,12 +683,12 @@ def run(ctx: Any, prog: Program) -> None:
         normalised = dotted(call.func) == 'format_float' or (isinstance(arg, ast.Call) and dotted(arg.func) in ('float', 'format_float'))
         if not normalised and isinstance(arg, ast.Name):
             # `if isinstance(value, int): value = float(value)` in front of the str()
-            normalised = any(isinstance(i, ast.If) and isinstance(i.test, ast.Call) and dotted(i.test.func) == 'isinstance' and dotted(i.test.args[0]) == arg.id and 'int' in ast.unparse(i.test.args[1])
+            normalised = any(isinstance(i, ast.If) and isinstance(i.test, ast.Call) and dotted(i.test.func) == 'isinstance' and dotted(i.test.args[0]) == arg.id and 'int' in U(i.test.args[1])
                              and any(isinstance(a, ast.Assign) and dotted(a.targets[0]) == arg.id and isinstance(a.value, ast.Call) and dotted(a.value.func) == 'float' for a in i.body) for i in ast.walk(rs))
         if not normalised and isinstance(arg, ast.IfExp):
-            normalised = 'float(' in ast.unparse(arg) and 'isinstance' in ast.unparse(arg.test)
+            normalised = 'float(' in U(arg) and 'isinstance' in U(arg.test)
         for m_ in scalar_members:
-            ctx.check('C06.V17', normalised, vm, call, f'DispVertex.{m_} is written as `{ast.unparse(call)[:50]}`: an int assigned through the API (the default distance is the int 0) is written as "0" but re-parsed as the float 0.0 '
+            ctx.check('C06.V17', normalised, vm, call, f'DispVertex.{m_} is written as `{U(call)[:50]}`: an int assigned through the API (the default distance is the int 0) is written as "0" but re-parsed as the float 0.0 '
                       'and written as "0.0" the next time - exporting, parsing and exporting again does not reproduce the text', func='Side._export_disp_rowset', text=f'row member {m_} has one spelling')
     # ---- V18: positional constructor calls in the parsers agree with the declared field / parameter order ------------------------------
     ctx.rule('C06.V18', 'a parsed value reaches the field it was read for: locals passed positionally to a constructor sit at the position of the field of the same name', floor=20)
@@ -699,8 +700,8 @@ def run(ctx: Any, prog: Program) -> None:
         for st in c_.body:
             if isinstance(st, ast.FunctionDef) and st.name == '__init__':
                 return [a.arg for a in st.args.args[1:]]
-        if any('attrs' in ast.unparse(d) or 'define' in ast.unparse(d) for d in c_.decorator_list):
-            return [st.target.id for st in c_.body if isinstance(st, ast.AnnAssign) and isinstance(st.target, ast.Name) and 'ClassVar' not in ast.unparse(st.annotation)]
+        if any('attrs' in U(d) or 'define' in U(d) for d in c_.decorator_list):
+            return [st.target.id for st in c_.body if isinstance(st, ast.AnnAssign) and isinstance(st.target, ast.Name) and 'ClassVar' not in U(st.annotation)]
         return None
     n_pos = 0
     for qual, fns in vm.all_funcs().items():
@@ -734,7 +735,7 @@ def run(ctx: Any, prog: Program) -> None:
         ctx.shape('C06.V8', False, vm, idr, 'one assignment of the row number `y` expected in _iter_disp_row', func='Side._iter_disp_row', text='row number taken from the key')
     else:
         yv = y_defs[0].value
-        src_ = ast.unparse(yv)
+        src_ = U(yv)
         whole_suffix = isinstance(yv, ast.Call) and dotted(yv.func) == 'int' and yv.args and isinstance(yv.args[0], ast.Subscript) and isinstance(yv.args[0].slice, ast.Slice) \
             and yv.args[0].slice.upper is None and isinstance(yv.args[0].slice.lower, ast.Constant) and yv.args[0].slice.lower.value == len('row') and src_.replace(' ', '').endswith('name[3:])')
         pat_ = None
@@ -896,20 +897,20 @@ def run(ctx: Any, prog: Program) -> None:
                 if s.spec and re.search(r'[geEfG]$|\.\d', s.spec):
                     fields = {a.attr for a in ast.walk(s.node) if isinstance(a, ast.Attribute)}
                     ok = bool(fields & SIG_OK_FIELDS) and fields <= SIG_OK_FIELDS | {'self'}
-                    ctx.check('C06.V3', ok, vm, em.node, f'`{ast.unparse(s.node)}` is written with format spec `{s.spec}` (significant digits / fixed precision); '
-                              'only face rotation, output delay and multiblend Vec4 values may lose precision this way', func=qual, text=f'spec {s.spec} on {ast.unparse(s.node)[:40]}')
+                    ctx.check('C06.V3', ok, vm, em.node, f'`{U(s.node)}` is written with format spec `{s.spec}` (significant digits / fixed precision); '
+                              'only face rotation, output delay and multiblend Vec4 values may lose precision this way', func=qual, text=f'spec {s.spec} on {U(s.node)[:40]}')
                 if not s.quoted:
                     continue
                 kind = ty.kind(s.node)
                 if kind == 'unknown':
-                    raise AnalysisError(f'{vm.relpath}:{em.node.lineno}: {qual}: cannot type quoted slot `{ast.unparse(s.node)}` (add an idiom to rules/c06.Typer)')
+                    raise AnalysisError(f'{vm.relpath}:{em.node.lineno}: {qual}: cannot type quoted slot `{U(s.node)}` (add an idiom to rules/c06.Typer)')
                 if kind in ('str', 'escaped'):
-                    ctx.check('C06.V2', kind == 'escaped', vm, em.node, f'`{ast.unparse(s.node)}` is a str written inside quotes ({s.position} position'
+                    ctx.check('C06.V2', kind == 'escaped', vm, em.node, f'`{U(s.node)}` is a str written inside quotes ({s.position} position'
                               + (f' of "{s.line_key}"' if s.line_key else '') + ') without escape_text(): a quote, backslash or newline in it corrupts the file',
-                              func=qual, text=f'{s.position} slot {ast.unparse(s.node)[:50]}')
+                              func=qual, text=f'{s.position} slot {U(s.node)[:50]}')
     # Vec4.__str__ uses :g by design (multiblend values) - recorded as an allowed instance
     v4 = vm.func('Vec4.__str__')
-    specs = [ast.unparse(v.format_spec) for v in ast.walk(v4) if isinstance(v, ast.FormattedValue) and v.format_spec is not None]
+    specs = [U(v.format_spec) for v in ast.walk(v4) if isinstance(v, ast.FormattedValue) and v.format_spec is not None]
     ctx.check('C06.V3', len(specs) == 4, vm, v4, 'Vec4.__str__ formats its four components', text='Vec4 components')
     # ---- V4 --------------------------------------------------------------------------------------------
     check_disp_rows(ctx, prog, vm)
@@ -923,8 +924,8 @@ def run(ctx: Any, prog: Program) -> None:
     try:
         val = Folder(prog, vm).fold(arg, {'_is_worldspawn': True})
     except AnalysisError:
-        raise AnalysisError(f'Entity.export: include_groups argument `{ast.unparse(arg)}` is not a function of _is_worldspawn')
-    ctx.check('C06.V6', bool(val) is True, vm, calls[0], f'Entity.export passes include_groups={ast.unparse(arg)}: for the worldspawn entity this is {val!r}, so world brushes are '
+        raise AnalysisError(f'Entity.export: include_groups argument `{U(arg)}` is not a function of _is_worldspawn')
+    ctx.check('C06.V6', bool(val) is True, vm, calls[0], f'Entity.export passes include_groups={U(arg)}: for the worldspawn entity this is {val!r}, so world brushes are '
               'written without "groupid"/"visgroupid" although VisGroup.child_solids() and Solid.group_id keep that membership on the brush itself', text='world brushes keep group keys')
     # ---- V7: composite value separators -------------------------------------------------------------------
     def writer_value_separators(qual: str, key_prefix: str) -> Optional[List[str]]:
@@ -949,11 +950,11 @@ def run(ctx: Any, prog: Program) -> None:
     def reader_split(fnr: ast.AST, near: str) -> Optional[ast.Call]:
         best = None
         for n in ast.walk(fnr):
-            if isinstance(n, ast.Call) and isinstance(n.func, ast.Attribute) and n.func.attr in ('split', 'partition') and 'value' in ast.unparse(n.func.value):
+            if isinstance(n, ast.Call) and isinstance(n.func, ast.Attribute) and n.func.attr in ('split', 'partition') and 'value' in U(n.func.value):
                 # the split that sits under the branch mentioning `near`
                 p = vm.parents.get(n)
                 while p is not None and p is not fnr:
-                    if isinstance(p, ast.If) and near in ast.unparse(p.test):
+                    if isinstance(p, ast.If) and near in U(p.test):
                         best = n
                     p = vm.parents.get(p)
         return best
@@ -972,7 +973,7 @@ def run(ctx: Any, prog: Program) -> None:
         ok_max = isinstance(max_arg, ast.Constant) and max_arg.value == len(seps)
         if not last_is_text:
             ok_sep = ok_sep or sep_arg is None or (isinstance(sep_arg, ast.Constant) and sep_arg.value is None)
-        ctx.check('C06.V7', ok_sep and ok_max, vm, sp, f'{rq} splits the "{prefix}..." value with `{ast.unparse(sp)[:50]}` but {wq} joins its {len(seps) + 1} fields with {seps!r}'
+        ctx.check('C06.V7', ok_sep and ok_max, vm, sp, f'{rq} splits the "{prefix}..." value with `{U(sp)[:50]}` but {wq} joins its {len(seps) + 1} fields with {seps!r}'
                   + ('; the last field is free text, so a different separator or split count strips/merges characters of the value' if last_is_text else ''),
                   func=rq, text=f'{prefix} value split')
     # ---- V8: vertex addressing in displacement rows -----------------------------------------------------------
@@ -1019,11 +1020,11 @@ def run(ctx: Any, prog: Program) -> None:
             if isinstance(n, ast.Subscript) and dotted(n.value) == 'self._disp_verts' and not isinstance(n.slice, ast.Slice):
                 form = lin2(n.slice, env_s)
                 if form is None:
-                    raise AnalysisError(f'{rq}:{n.lineno}: vertex index `{ast.unparse(n.slice)}` is not linear in x, y')
+                    raise AnalysisError(f'{rq}:{n.lineno}: vertex index `{U(n.slice)}` is not linear in x, y')
                 n_idx += 1
                 ok = form.get('y') == (1, 0) and form.get('x') == (0, 1) and form.get('1', (0, 0)) == (0, 0)
-                ctx.check('C06.V8', ok, vm, n, f'{rq} stores row data into vertex `{ast.unparse(n.slice)}`; the exporter takes row y, item x from vertex size*y + x '
-                          '(the vertex grid is size wide for every block, including the (size-1)-wide triangle_tags)', func=rq, text=f'vertex index {ast.unparse(n.slice)}')
+                ctx.check('C06.V8', ok, vm, n, f'{rq} stores row data into vertex `{U(n.slice)}`; the exporter takes row y, item x from vertex size*y + x '
+                          '(the vertex grid is size wide for every block, including the (size-1)-wide triangle_tags)', func=rq, text=f'vertex index {U(n.slice)}')
     for wq in ('Side._export_displacement', 'Side._export_disp_rowset'):
         fnw = vm.func(wq)
         for n in ast.walk(fnw):
@@ -1032,8 +1033,8 @@ def run(ctx: Any, prog: Program) -> None:
                 form = lin2(n.slice.lower, env_s)
                 ok = form is not None and form.get('y') == (1, 0) and form.get('x', (0, 0)) == (0, 0) and form.get('1', (0, 0)) == (0, 0)
                 n_idx += 1
-                ctx.check('C06.V8', ok, vm, n, f'{wq} starts row y at `{ast.unparse(n.slice.lower)}`; rows of the vertex grid start at size*y', func=wq,
-                          text=f'row start {ast.unparse(n.slice.lower)}')
+                ctx.check('C06.V8', ok, vm, n, f'{wq} starts row y at `{U(n.slice.lower)}`; rows of the vertex grid start at size*y', func=wq,
+                          text=f'row start {U(n.slice.lower)}')
     # ---- V5 --------------------------------------------------------------------------------------------
     vp = vm.func('VMF.parse')
     vcalls = [c for c in walk_no_nested(vp) if isinstance(c, ast.Call) and dotted(c.func) == 'VMF']
@@ -1047,13 +1048,13 @@ def run(ctx: Any, prog: Program) -> None:
             raise AnalysisError(f'{qual}: constructor call not found')
         c = ctors[-1]
         arg = c.args[argpos] if len(c.args) > argpos else None
-        src = ast.unparse(arg) if arg is not None else ''
+        src = U(arg) if arg is not None else ''
         # the argument must derive from reading the id key
         derived = f"'{key}'" in src
         if not derived and isinstance(arg, ast.Name):
             for n in walk_no_nested(fn):
                 if isinstance(n, ast.Assign) and any(isinstance(t, ast.Name) and t.id == arg.id for t in n.targets):
-                    if f"'{key}'" in ast.unparse(n.value) or ('item.value' in ast.unparse(n.value) and key == 'id'):
+                    if f"'{key}'" in U(n.value) or ('item.value' in U(n.value) and key == 'id'):
                         derived = True
         ctx.check('C06.V5', derived, vm, c, f'{qual} must pass the "{key}" read from the file as the desired id (argument {argpos}: `{src}`)', func=qual, text=f'{qual} id plumbing')
 
@@ -1089,13 +1090,13 @@ def check_disp_rows(ctx: Any, prog: Program, vm: Module) -> None:
                 env[n.targets[0].id] = (1, -1)        # 2**power == S - 1
     ds = vm.func('Side.disp_size')
     rets = [r for r in ast.walk(ds) if isinstance(r, ast.Return)]
-    if not any(ast.unparse(r.value).replace(' ', '') == '2**self.disp_power+1' for r in rets if r.value is not None):
+    if not any(U(r.value).replace(' ', '') == '2**self.disp_power+1' for r in rets if r.value is not None):
         raise AnalysisError('Side.disp_size is no longer 2 ** disp_power + 1')
     for c in walk_no_nested(pd):
         if isinstance(c, ast.Call) and dotted(c.func) == 'self._iter_disp_row' and len(c.args) == 3 and isinstance(c.args[1], ast.Constant):
             l = lin(c.args[2], env)
             if l is None:
-                raise AnalysisError(f'_parse_displacement_data: cannot read row length `{ast.unparse(c.args[2])}`')
+                raise AnalysisError(f'_parse_displacement_data: cannot read row length `{U(c.args[2])}`')
             reader[c.args[1].value] = l
     pv = vm.func('Side._parse_disp_vecrow')
     vec_len = None
@@ -1109,7 +1110,7 @@ def check_disp_rows(ctx: Any, prog: Program, vm: Module) -> None:
         if isinstance(c, ast.Call) and dotted(c.func) == 'self._parse_disp_vecrow' and len(c.args) == 3:
             names = res.resolve(c.args[1], pd)
             if names is None:
-                raise AnalysisError(f'_parse_displacement_data: cannot resolve vecrow name `{ast.unparse(c.args[1])}`')
+                raise AnalysisError(f'_parse_displacement_data: cannot resolve vecrow name `{U(c.args[1])}`')
             for nm in names:
                 reader[nm] = vec_len
     # writer: rowsets
@@ -1155,7 +1156,7 @@ def check_disp_rows(ctx: Any, prog: Program, vm: Module) -> None:
                     raise AnalysisError(f'_export_displacement:{n.lineno}: row comprehension iterable not recognised')
                 alts = elt_token_alternatives(comp.elt, tokens_of_type)
                 if alts is None:
-                    raise AnalysisError(f'_export_displacement:{n.lineno}: cannot count tokens of row item `{ast.unparse(comp.elt)}`')
+                    raise AnalysisError(f'_export_displacement:{n.lineno}: cannot count tokens of row item `{U(comp.elt)}`')
                 ctx.check('C06.V4', len(set(alts)) == 1, vm, n, f'row items of block {cur_block} have alternatives with different token counts {alts}: '
                           'a row mixing them has a length the reader rejects', func='Side._export_displacement', text=f'{cur_block} item alternatives')
                 tk = max(alts)
@@ -1195,7 +1196,7 @@ def elt_token_alternatives(elt: ast.AST, tokens_of_type: Dict[str, int]) -> Opti
         txt = ''.join(str(v.value) if isinstance(v, ast.Constant) else 'X' for v in elt.values)
         return [len(txt.split())]
     if isinstance(elt, ast.Call) and dotted(elt.func) == 'str' and elt.args:
-        src = ast.unparse(elt.args[0])
+        src = U(elt.args[0])
         if 'multi_colors' in src:
             return [tokens_of_type['Vec']]
         return None
